@@ -149,7 +149,18 @@ func verifC04MakeStream(id int, chunks []verifC04Chunk, sport int) streams.Strea
 	}
 }
 
+var verifC04DumpCache = map[string]string{}
+
 func verifC04DumpProg(re string) string {
+	if d, ok := verifC04DumpCache[re]; ok {
+		return d
+	}
+	d := verifC04DumpProgUncached(re)
+	verifC04DumpCache[re] = d
+	return d
+}
+
+func verifC04DumpProgUncached(re string) string {
 	parsed, err := syntax.Parse(re, syntax.Perl)
 	if err != nil {
 		return "ERR parse"
